@@ -365,6 +365,11 @@ def small_bases(ctx, n, maxlen=160):
         i += 1
     for j in range(n // 10):
         out.append(("A", "basec.%d" % j, "c", 0, 0, 0, gen.gram_chunk(r)[:maxlen]))
+    # chunk-size lines followed by chunk data, with every byte value at every position of one of them, and extensions
+    # of every length (a look-ahead over the bytes after the size line must not change the answer)
+    for c in corpora.fam_chunk(ctx.seed, 40):
+        if len(c[6]) <= maxlen and (".body" in c[1] or ".ext" in c[1] or ".p4." in c[1] or ".i4." in c[1]):
+            out.append(c)
     return out
 
 
@@ -1364,7 +1369,7 @@ def run_C20(ctx):
                 why = "cursor travel %d differs from the consumed length %s" % (travel, st)
             elif peeks > n + 16:
                 why = "%d block peeks for %d bytes" % (peeks, n)
-            elif asrefs > 2 * n + 16:
+            elif asrefs > n + 16:       # (the unchanged crate stays below 0.7 per byte on every family)
                 why = "%d remaining-slice views for %d bytes" % (asrefs, n)
             elif trimmed > n + 1:
                 why = "trim visited %d bytes for %d bytes of input" % (trimmed, n)
